@@ -325,6 +325,28 @@ func driveC19(o opts) error {
 						goFail("decode "+t.name, fmt.Sprintf("decoding %s as %s panics: %s", string(b), t.name, msg), variant)
 					}
 				}
+				// ... and as the value of every member a schema or request object may have, at the top and one level down
+				if obj, ok := base.(map[string]interface{}); ok {
+					for _, member := range []string{"enum", "type", "key", "value", "min", "max", "refTable", "refType", "columns", "indexes", "where", "select", "minInteger", "maxLength", "uuid", "rows", "mutations", "timeout", "until"} {
+						variants := []interface{}{withMember(obj, member, h)}
+						for k, v := range obj {
+							if inner, ok := v.(map[string]interface{}); ok {
+								variants = append(variants, withMember(obj, k, withMember(inner, member, h)))
+							}
+						}
+						for _, variant := range variants {
+							b, err := json.Marshal(variant)
+							if err != nil {
+								continue
+							}
+							grid++
+							note("decode "+t.name, variant)
+							if _, class, msg := guarded(func() (interface{}, error) { return t.decode(b) }); class == 2 {
+								goFail("decode "+t.name, fmt.Sprintf("decoding %s as %s panics: %s", string(b), t.name, msg), variant)
+							}
+						}
+					}
+				}
 			}
 		}
 		w.Dist["decode:grid"] = grid
@@ -878,4 +900,13 @@ func substituteAt(x interface{}, k *int, h interface{}) interface{} {
 		return out
 	}
 	return x
+}
+
+func withMember(obj map[string]interface{}, member string, v interface{}) map[string]interface{} {
+	out := make(map[string]interface{}, len(obj)+1)
+	for k, x := range obj {
+		out[k] = x
+	}
+	out[member] = v
+	return out
 }
